@@ -31,6 +31,8 @@ func checkC08(p *Prog, r *Report) {
 	notifyCountRule(p, r, "R6")
 	r.Rule("R7", "subscription ids are results of an atomic increment of the manager's counter")
 	idRule(p, r, "R7", subMgr)
+	r.Rule("R13", "the id counter only grows: every modification is sync/atomic Add with a positive constant — an id handed back, reset or recomputed is handed out twice")
+	monotoneCounterRule(p, ls, r, "R13", F("SubscriptionManager.subscriptionNum"))
 	r.Rule("R8", "the per-device listing filters on the peer identity (SKI of the client feature's device), the per-feature listing on the server feature address")
 	listingRule(p, r, "R8", subMgr)
 	r.Rule("R12", "the subscription list is never used as the backing array of another list (a query that filters into registry[:0] overwrites the registry)")
